@@ -184,13 +184,14 @@ class Tags:
         ops = []
         for _ in range(rng.randint(1, 4)):
             if rng.random() < 0.4:
-                ops.append({"op": "show", "ignore": rng.random() < 0.15,
+                ops.append({"op": "show", "ignore": rng.random() < 0.15, "no_fetch": rng.random() < 0.2,
                             "fault": rng.choice([None, None, None, None, "fetch", "ls_tags"])})
                 if any(t.get("remote_only") for t in tags) and ops[-1]["fault"] == "fetch":
                     ops[-1]["fault"] = None
             else:
                 ops.append({"op": "update", "flags": gp.gen_flags(rng, tree), "delta": gp.gen_clock_delta(rng),
                             "ignore": rng.random() < 0.25, "scope_flag": rng.choice([None, None, "default", "global", "branch"]),
+                            "no_fetch": rng.random() < 0.2,
                             "dry": rng.random() < 0.3, "fault": rng.choice([None, None, None, None, None, "fetch", "ls_tags"])})
                 if any(t.get("remote_only") for t in tags) and ops[-1]["fault"] == "fetch":
                     ops[-1]["fault"] = None
@@ -343,7 +344,7 @@ class Tags:
         for op in case["ops"]:
             scope = case["scope"] or "default"
             if op["op"] == "show":
-                argv = ["show"] + (["--ignore-vcs-tag"] if op.get("ignore") else [])
+                argv = ["show"] + (["--ignore-vcs-tag"] if op.get("ignore") else []) + (["--no-fetch"] if op.get("no_fetch") else [])
             else:
                 clock = tc.step_clock(ctx, clock, op.get("delta", 0), two_digit)
                 argv = ["update"] + gp.flags_to_argv(op.get("flags", {}))
@@ -354,11 +355,17 @@ class Tags:
                     scope = op["scope_flag"]
                 if op.get("dry"):
                     argv.append("--dry")
+                if op.get("no_fetch"):
+                    argv.append("--no-fetch")
+            if op.get("no_fetch"):
+                ctx.probe("no_fetch_with_tags_only_on_the_remote" if any(t.get("remote_only") for t in case["tags"]) else "no_fetch")
             if rg is not None:
                 rg.set_date(clock)
                 shim = fakevcs.VcsShim(None, forward_env=rg.env)
                 pre_tags = set(rg.tags())
-                if not op.get("ignore"):
+                pre_local = set(pre_tags)
+                pre_reach = set(rg.tags_merged())
+                if not op.get("ignore") and not op.get("no_fetch"):
                     pre_tags |= rg.all_tags       # (the run fetches first)
             else:
                 fault = None
@@ -368,7 +375,10 @@ class Tags:
                         "ls_tags_branch" if scope == "branch" and not op.get("ignore") else "ls_tags"), rc=128)
                 shim = fakevcs.VcsShim(repo, fault)
                 pre_tags = set(repo.tags)
-                if not op.get("ignore"):
+                pre_local = set(pre_tags)
+                anc_now = repo.ancestors(repo.head_commit())
+                pre_reach = set(t for t in repo.tags if repo.tags[t] in anc_now)
+                if not op.get("ignore") and not op.get("no_fetch"):
                     # the run fetches before it looks at tags; with --ignore-vcs-tag it need not, and a tag that only the
                     # remote has is then not "an existing tag" of this repository yet
                     pre_tags |= set(n for n, _c in repo.pending_remote_tags)
@@ -382,7 +392,13 @@ class Tags:
             ctx.event(argv, res.exit_code, got, new)
             cur_tags = [t for t in case["tags"] if t["name"] in pre_tags] + \
                 [{"name": n, "kind": "valid", "branch": case["head"]} for n in pre_tags if n not in existing]
-            cur_reach = reachable | (pre_tags - existing)
+            # reachability as it is now: earlier updates of this run created tags at HEAD (with --no-fetch possibly one whose name
+            # a tag on the remote also has)
+            fetching = not op.get("ignore") and not op.get("no_fetch")
+            cur_reach = set(pre_reach)
+            if fetching:
+                cur_reach |= set(n for n in reachable if n not in pre_local)
+            cur_reach |= (pre_tags - existing)
             want_a = current_reference(tree, cfg_text, cur_tags, cur_reach, scope, op.get("ignore"), True)
             want_b = current_reference(tree, cfg_text, cur_tags, cur_reach, scope, op.get("ignore"), False)
             want = want_a | want_b
